@@ -99,6 +99,16 @@ def run(ctx):
         r0[5] = ("A", [("E", [("Y", b"h%d" % j), ("Y", b"v" * (j % 3))]) for j in range(nh)])
         a[1][4] = ("A", [("E", r0)])
         news.append(a)
+    for nrec in (49, 50, 51, 130):   # many *minimal* records: 7 bytes each on the wire
+        a = recgen.gen_new_batch(rng, whole_seconds=True)
+        r0 = list(a[1][4][1][0][1])
+        r0[3] = ("N",); r0[4] = ("N",); r0[5] = ("A", []); r0[0] = ("I", 0)
+        recs = []
+        for j in range(nrec):
+            rj = list(r0); rj[2] = ("I", r0[2][1] + j)
+            recs.append(("E", rj))
+        a[1][4] = ("A", recs)
+        news.append(a)
     wires = [recgen.derive_wire(a) for a in news]
     # batches as a broker may return them, not only as write_new_batch produces them: no records at
     # all (a compacted batch), header fields that are not functions of the records
